@@ -827,6 +827,7 @@ func (n *node) stop(force bool) {
 		n.RouteSendExit(p.parent, p.pid, gen.TerminateReasonShutdown)
 		return true
 	})
+	lib.VerifPoint("node.stop.ranged", n.name)
 
 	if n.cron != nil {
 		n.cron.terminate()
